@@ -26,7 +26,7 @@ RULE = (
     "(lists of choices) plus a bounded depth-first enumeration; thorough: depth-first "
     "enumeration of ALL distinct interleavings for every 2-thread scenario and a bounded set for "
     "3 threads. Oracle: every thread's array is bit-equal to the single-threaded result, all "
-    "threads finish, no deadlock, no exception. Non-trivial: the trace has a context switch "
+    "threads finish, no deadlock, no exception. Stage 'forked-workers': after this process has been loading (not at all / one thread / two threads) it forks a worker that unpickles a copy of the tree and loads each selection from it; the worker must answer with the sequential values (72 cases). Non-trivial: the trace has a context switch "
     "between some thread's seek and its read, or between two threads contending for one lock."
 )
 ASSUMPTIONS = [
@@ -230,8 +230,12 @@ def world(shared=False):
         # one shared file object per path, as fsspec's memory filesystem hands out
         vtrace.STORE.shared_products.add(prod.name)
     tree, _ = harness.reference_open(prod.url, use_cache=False, records_per_chunk=2)
-    BLOBS[shared] = pickle.dumps(tree)  # before the cooperative proxies go in
-    copy = pickle.loads(BLOBS[shared])
+    try:
+        BLOBS[shared] = pickle.dumps(tree)  # before the cooperative proxies go in
+        copy = pickle.loads(BLOBS[shared])
+    except Exception as e:  # noqa: BLE001
+        # "from pickled copies of the tree": a tree that has been loaded from once must still pickle
+        raise harness.SetupViolation(harness.disc("tree-not-picklable", "pickle round trip of an opened tree (after a full load)", "a copy", harness.exc_text(e)))
     NOTES[f"cooperative-locks-installed={install_cooperative_locks(tree) + install_cooperative_locks(copy)}"] += 0
     return tree, copy
 
@@ -388,8 +392,89 @@ def run_fault_case(case):
     return out
 
 
+def run_fork_case(case):
+    """a worker process forked from this one (the default start method of multiprocessing /
+    ProcessPoolExecutor on Linux) receives a pickled copy of the tree and loads a selection from
+    it - after this process has itself been loading (threads, several chunks per load).  The
+    child must come back with the sequential values; a child that never answers is a deadlock."""
+    import os
+    import select
+    import signal
+
+    shared = is_shared(case["scenario"])
+    group = case["group"]
+    ref = sequential("copy", group, case["sel"], shared)
+    if case["parent_activity"] == "threads":
+        acts = actors("same-var-2")
+        run_threads(acts, [0, 0], [0, 1, 0, 1, 1, 0], shared)
+    elif case["parent_activity"] == "load":
+        sequential("tree", group, 0, shared)
+        run_threads([("tree", group)], [0], [], shared)
+    blob = BLOBS[shared]
+    r, w = os.pipe()
+    pid = os.fork()
+    if pid == 0:
+        # child: no scheduler thread identity here, so vtrace's yield points are inert
+        code = 0
+        try:
+            os.close(r)
+            t = pickle.loads(blob)
+            v = np.asarray(t[f"imagery/{group}"]["data"].isel(**to_sel(SELECTIONS[case["sel"]])).values)
+            payload = pickle.dumps(("ok", v))
+        except BaseException as e:  # noqa: BLE001 - reported to the parent
+            payload = pickle.dumps(("error", harness.exc_text(e)))
+            code = 1
+        try:
+            with os.fdopen(w, "wb") as f:
+                f.write(payload)
+        finally:
+            os._exit(code)
+    os.close(w)
+    ctx = {"scenario": case["scenario"], "parent_activity": case["parent_activity"]}
+    chunks = []
+    deadline = 45.0
+    import time
+
+    start = time.monotonic()
+    done = False
+    with os.fdopen(r, "rb") as f:
+        while time.monotonic() - start < deadline:
+            ready, _, _ = select.select([f], [], [], 0.5)
+            if ready:
+                piece = os.read(f.fileno(), 1 << 20)
+                if not piece:
+                    done = True
+                    break
+                chunks.append(piece)
+    if not done:
+        os.kill(pid, signal.SIGKILL)
+        os.waitpid(pid, 0)
+        return [harness.disc("deadlock", "load from a pickled copy in a forked worker process", "the values", f"no answer within {deadline:.0f} s", **ctx)]
+    os.waitpid(pid, 0)
+    try:
+        status, value = pickle.loads(b"".join(chunks))
+    except Exception as e:  # noqa: BLE001
+        return [harness.disc("exception-in-thread", "forked worker process", "values", f"no result ({harness.exc_text(e)})", **ctx)]
+    if status != "ok":
+        return [harness.disc("exception-in-thread", "load from a pickled copy in a forked worker process", "values", value, **ctx)]
+    if isinstance(ref, tuple) or not harness.array_bytes_equal(value, ref):
+        return [harness.disc("wrong-values", "load from a pickled copy in a forked worker process", "the sequential values", "other values", **ctx)]
+    return []
+
+
+def fork_cases():
+    for scenario in ("forked-worker", "forked-worker@shared"):
+        for activity in ("none", "load", "threads"):
+            for group in ("HH", "HV"):
+                for sel in range(len(SELECTIONS)):
+                    yield {"mode": "fork", "scenario": scenario, "parent_activity": activity, "group": group, "sel": sel}
+
+
 def run_case(case):
     key = harness.case_hash(case)
+    if case["mode"] == "fork":
+        COUNTS[key] = [((case["parent_activity"], case["group"], case["sel"]), case["parent_activity"] != "none")]
+        return run_fork_case(case)
     if case["mode"] == "fault":
         COUNTS[key] = [((), True)]
         return run_fault_case(case)
@@ -435,7 +520,7 @@ NOTES = __import__("collections").Counter()
 def sub_units(case):
     key = harness.case_hash(case)
     for choices, nontrivial in COUNTS.pop(key, []):
-        yield [case["scenario"], case["sels"], list(choices)], nontrivial
+        yield [case["scenario"], case.get("sels"), list(choices)], nontrivial
 
 
 def dfs_cases(tier):
@@ -471,6 +556,7 @@ def schedule_cases(draw):
 def plan(tier):
     return [
         {"kind": "enum", "name": "dfs-interleavings", "cases": lambda: dfs_cases(tier), "exhaustive": tier == "thorough"},
+        {"kind": "enum", "name": "forked-workers", "cases": fork_cases, "exhaustive": False},
         {"kind": "hyp", "name": "random-schedules", "strategy": schedule_cases(), "examples": 400 if tier == "quick" else 20000},
     ]
 
